@@ -603,6 +603,11 @@ func (p *ror2Parser) text() (string, bool) {
 		if !rawAllowed(p.flavour, c) && len(p.rawBad) < 4 {
 			p.rawBad = append(p.rawBad, fmt.Sprintf("%q at offset %d", string([]byte{c}), p.i))
 		}
+		if p.flavour == 4 && c == '+' {
+			// in a query string '+' stands for a space (a Rest.li WRITER writes %20: the byte is still reported above when it is
+			// found in an emitted document); in path segments and headers '+' is a literal plus
+			c = ' '
+		}
 		sb.WriteByte(c)
 		p.i++
 	}
@@ -914,6 +919,8 @@ func c03JSON(d *Doc, st jsonVariant, r *hx.Rand) string {
 // ROR2 leaf encodings: min (only what the context requires... the reference keeps unreserved raw), max (everything but letters
 // and digits), lower (max with lower-case hex), all (every byte, letters and digits included), mixed (drawn per byte among the
 // legal choices of the flavour, random hex case)
+// Query flavour only: plus (min, with every space written '+': tokens made of unreserved characters and spaces then hold no '%'
+// at all) and, inside mixed, a space drawn among '+', %20 and (never) raw.
 var ror2Kinds = []string{"min", "max", "lower", "all", "mixed"}
 
 func c03Percent(s string, flavour int, kind string, r *hx.Rand) string {
@@ -928,8 +935,12 @@ func c03Percent(s string, flavour int, kind string, r *hx.Rand) string {
 		mayStayRaw := !reserved && rawAllowed(flavour, c)
 		raw := false
 		upper := true
+		if flavour == 4 && c == ' ' && (kind == "plus" || (kind == "mixed" && r.Chance(50))) {
+			sb.WriteByte('+')
+			continue
+		}
 		switch kind {
-		case "min":
+		case "min", "plus":
 			raw = mayStayRaw
 		case "max":
 			raw = alnum
@@ -977,6 +988,36 @@ func c03ROR2(d *Doc, flavour int, kind string, r *hx.Rand) string {
 		return "(" + strings.Join(parts, ",") + ")"
 	}
 	panic("c03ROR2 " + d.Kind)
+}
+
+func docHasSpace(d *Doc) bool {
+	if d == nil {
+		return false
+	}
+	if (d.Kind == "str" || d.Kind == "bytes") && strings.IndexByte(d.S, ' ') >= 0 {
+		return true
+	}
+	for _, k := range d.Keys {
+		if strings.IndexByte(k, ' ') >= 0 {
+			return true
+		}
+	}
+	for _, x := range d.Items {
+		if docHasSpace(x) {
+			return true
+		}
+	}
+	return false
+}
+
+// some text token (between the delimiters of the notation) holds a '+' and no '%'
+func tokenWithPlusAndNoPercent(text string) bool {
+	for _, tok := range strings.FieldsFunc(text, func(r rune) bool { return r == '(' || r == ')' || r == ',' || r == ':' }) {
+		if strings.IndexByte(tok, '+') >= 0 && strings.IndexByte(tok, '%') < 0 {
+			return true
+		}
+	}
+	return false
 }
 
 // conforming structural variants of a document: members permuted in every object, unknown members of primitive / object /
@@ -1090,7 +1131,7 @@ func runC03(cfg *hx.Config) {
 		"256 bytes as string value, map key and bytes value). FORWARD: each of the 5 writers' output is parsed by two independent strict JSON parsers / an independent ROR2 grammar parser " +
 		"(+ per-context raw-byte rule) and the tree compared with the reference tree of the value. CONVERSE: from each valid value, conforming documents drawn by a reference renderer " +
 		"(members permuted in every object, unknown members of primitive/object/array shape at any position of every record, null for unset optional fields, whitespace, every legal " +
-		"alternative string escape incl. surrogate pairs and \\/, alternative number texts; ROR2: minimal / maximal / lower-case-hex / everything-encoded / mixed percent-encoding) are fed to " +
+		"alternative string escape incl. surrogate pairs and \\/, alternative number texts; ROR2: minimal / maximal / lower-case-hex / everything-encoded / mixed percent-encoding; query strings also with a space written '+', incl. tokens without any '%') are fed to " +
 		"the JSON, ROR2 header/path and query readers, expected value = the value with defaults filled. ENVELOPES: the hand-written collection/batch/create/action envelope types around seeded " +
 		"family records, shape-checked against the protocol member names and decoded back from reference renderings. " +
 		"non-trivial = forward: the value holds a string/key/bytes with a byte outside [A-Za-z0-9_] or a float; converse: the variant differs from the library's own output for that format; " +
@@ -1133,6 +1174,19 @@ func runC03(cfg *hx.Config) {
 		runConform("Coll", coll, "sweep", withDec, sz, r, rep, sh)
 		fx := &Val{K: "fixed", S: "a" + s + s + "("}
 		runConform("Fx4", fx, "sweep", withDec && b%16 == 0, sz, r, rep, sh)
+	}
+	// spaces in "easy" strings, keys, array items and map values (what a foreign producer writes with '+' in a query string):
+	// alone in a token, between letters, leading/trailing, next to tokens that need a percent escape
+	for _, sp := range []string{" ", "a b", "hello big world", " x", "x ", "a  b", "first name"} {
+		str := func(x string) *Val { return &Val{K: "str", S: x} }
+		runConform("Inner", &Val{K: "rec", Fields: []*Val{{K: "int", Z: 1}, str(sp)}}, "plus", true, sz, r, rep, sh)
+		runConform("Coll", &Val{K: "rec", Fields: []*Val{
+			{K: "arr", Items: []*Val{str(sp), str("c"), str("a(b " + sp)}},
+			{K: "map", Keys: []string{sp, "k,%"}, Items: []*Val{str("Ada L"), str(sp)}},
+			{K: "map", Keys: []string{"m " + sp}, Items: []*Val{{K: "arr", Items: []*Val{{K: "rec", Fields: []*Val{{K: "int", Z: 7}, str(sp)}}}}}},
+			{K: "arr"}, nil, nil}}, "plus", true, sz, r, rep, sh)
+		runConform("U", &Val{K: "union", Fields: []*Val{nil, str(sp), nil, nil, nil}}, "plus", true, sz, r, rep, sh)
+		runConform("U", &Val{K: "union", Fields: []*Val{nil, nil, nil, {K: "arr", Items: []*Val{str(sp), str("b c")}}, nil}}, "plus", true, sz, r, rep, sh)
 	}
 	runEnvelopes(sz.envelopes, rEnv, rep)
 	checkProtocolHeaders(rep)
@@ -1372,6 +1426,15 @@ func runConform(tname string, v *Val, note string, withDec bool, sz c03Sizes, r 
 				kind := ror2Kinds[r.Intn(len(ror2Kinds))]
 				feats = append(feats, "ror2-"+kind)
 				feed(f, formats[f], c03ROR2(d, f, kind, r), feats)
+			}
+			// query strings: a space written '+' (legal there and only there: in path segments and headers '+' is a literal plus)
+			if k == 0 && docHasSpace(base) {
+				d, feats := conformVariant(schema, t, base, r, false)
+				text := c03ROR2(d, 4, "plus", r)
+				feed(4, formats[4], text, append(feats, "ror2-plus-for-space"))
+				if strings.IndexByte(text, '%') < 0 || tokenWithPlusAndNoPercent(text) {
+					rep.Count("variant:plus-in-a-token-without-percent")
+				}
 			}
 		}
 	}
